@@ -148,19 +148,3 @@ func genProcessFacts() {
 	sb.WriteString(footer(T))
 	writeIfChanged(*outDir+"/Process.lean", sb.String())
 }
-
-func exprText(e ast.Expr) string {
-	switch v := e.(type) {
-	case *ast.Ident:
-		return v.Name
-	case *ast.SelectorExpr:
-		return exprText(v.X) + "." + v.Sel.Name
-	case *ast.StarExpr:
-		return "*" + exprText(v.X)
-	case *ast.CallExpr:
-		return exprText(v.Fun) + "()"
-	case *ast.UnaryExpr:
-		return v.Op.String() + exprText(v.X)
-	}
-	return "?"
-}
